@@ -8,6 +8,7 @@ import (
 	"github.com/aperturerobotics/util/broadcast"
 	"github.com/aperturerobotics/util/ccontainer"
 	"github.com/aperturerobotics/util/promise"
+	"github.com/aperturerobotics/util/verifhook"
 )
 
 // RefCountResolver resolves a value within a RefCount container.
@@ -131,6 +132,7 @@ func WaitRefCountContainer[T comparable](
 // Returns if the context was updated.
 func (r *RefCount[T]) SetContext(ctx context.Context) bool {
 	var updated bool
+	verifhook.Lock(r)
 	r.mtx.Lock()
 	if r.ctx != ctx {
 		r.ctx = ctx
@@ -138,6 +140,7 @@ func (r *RefCount[T]) SetContext(ctx context.Context) bool {
 		updated = true
 	}
 	r.mtx.Unlock()
+	verifhook.Unlocked(r)
 	return updated
 }
 
@@ -150,6 +153,7 @@ func (r *RefCount[T]) ClearContext() {
 // cb is an optional callback to call when the value changes.
 // the callback will be called with an empty value when the value becomes empty.
 func (r *RefCount[T]) AddRef(cb func(resolved bool, val T, err error)) *Ref[T] {
+	verifhook.Lock(r)
 	r.mtx.Lock()
 	nref := &Ref[T]{rc: r, cb: cb}
 	r.refs[nref] = struct{}{}
@@ -159,6 +163,7 @@ func (r *RefCount[T]) AddRef(cb func(resolved bool, val T, err error)) *Ref[T] {
 		nref.cb(true, r.value, r.valueErr)
 	}
 	r.mtx.Unlock()
+	verifhook.Unlocked(r)
 	return nref
 }
 
@@ -206,6 +211,7 @@ func (r *RefCount[T]) WaitWithReleased(ctx context.Context, released func()) (pr
 			if !resolved || r.nonce != currNonce {
 				callReleasedOnce.Do(func() {
 					go func() {
+						verifhook.Go("refcount.waitreleased", r)
 						ref.Release()
 						if released != nil {
 							released()
@@ -301,6 +307,7 @@ func (r *RefCount[T]) Access(ctx context.Context, cb func(ctx context.Context, v
 
 			// start a goroutine to wait until waitCh closes and cancel the ctx.
 			go func() {
+				verifhook.Go("refcount.accesswatch", r)
 				select {
 				case <-ctx.Done():
 				case <-cbCtx.Done():
@@ -341,6 +348,7 @@ func (r *RefCount[T]) Access(ctx context.Context, cb func(ctx context.Context, v
 
 // removeRef removes a reference and shuts down if no refs remain.
 func (r *RefCount[T]) removeRef(ref *Ref[T]) {
+	verifhook.Lock(r)
 	r.mtx.Lock()
 	lenBefore := len(r.refs)
 	delete(r.refs, ref)
@@ -351,6 +359,7 @@ func (r *RefCount[T]) removeRef(ref *Ref[T]) {
 		}
 	}
 	r.mtx.Unlock()
+	verifhook.Unlocked(r)
 }
 
 // shutdown shuts down the resolver and clears state.
@@ -408,6 +417,7 @@ func (r *RefCount[T]) startResolveLocked() {
 // resolve is the goroutine to resolve the value to the container.
 func (r *RefCount[T]) resolve(ctx context.Context, waitCh, doneCh chan struct{}, nonce uint32) {
 	defer close(doneCh)
+	verifhook.Go("refcount.resolve", r)
 
 	if waitCh != nil {
 		select {
@@ -419,7 +429,10 @@ func (r *RefCount[T]) resolve(ctx context.Context, waitCh, doneCh chan struct{},
 
 	released := func() {
 		resolveAfterRelease := func(lock bool) {
+			defer verifhook.Unlocked(r)
 			if lock {
+				verifhook.Go("refcount.released", r)
+				verifhook.Lock(r)
 				r.mtx.Lock()
 			}
 			defer r.mtx.Unlock()
@@ -429,15 +442,19 @@ func (r *RefCount[T]) resolve(ctx context.Context, waitCh, doneCh chan struct{},
 			}
 		}
 
+		verifhook.Lock(r)
 		if r.mtx.TryLock() {
 			resolveAfterRelease(false)
 		} else {
+			verifhook.Unlocked(r)
 			go resolveAfterRelease(true)
 		}
 	}
 
 	val, valRel, err := r.resolver(ctx, released)
 
+	defer verifhook.Unlocked(r)
+	verifhook.Lock(r)
 	r.mtx.Lock()
 	defer r.mtx.Unlock()
 
